@@ -27,6 +27,8 @@ struct Case {
     drip: bool,
     /// replaces the encoded body: a body cut off inside a frame that declares a huge length
     raw: Option<Vec<u8>>,
+    /// every DATA frame of the transport is a Buf of this many non-contiguous segments
+    segments: usize,
 }
 
 fn encode(c: &Case) -> (Vec<u8>, Vec<usize>) {
@@ -46,12 +48,13 @@ fn encode(c: &Case) -> (Vec<u8>, Vec<usize>) {
 struct Canned {
     body: Vec<u8>,
     chunking: Chunking,
+    segments: usize,
     ch: Chooser,
     stats: std::sync::Arc<std::sync::Mutex<Option<std::sync::Arc<crate::env::BodyStats>>>>,
 }
 
 impl<B: Send + 'static> Service<http::Request<B>> for Canned {
-    type Response = http::Response<ScriptBody>;
+    type Response = http::Response<crate::env::Segmented<ScriptBody>>;
     type Error = std::convert::Infallible;
     type Future = Pin<Box<dyn Future<Output = Result<Self::Response, Self::Error>> + Send>>;
     fn poll_ready(&mut self, _: &mut Context<'_>) -> Poll<Result<(), Self::Error>> {
@@ -61,7 +64,7 @@ impl<B: Send + 'static> Service<http::Request<B>> for Canned {
         drop(req);
         let sb = ScriptBody::new(self.body.clone(), None, self.chunking.clone(), &self.ch);
         *self.stats.lock().unwrap() = Some(sb.stats());
-        let mut r = http::Response::new(sb);
+        let mut r = http::Response::new(crate::env::Segmented { inner: sb, segments: self.segments });
         r.headers_mut().insert("content-type", HeaderValue::from_static("application/grpc-web+proto"));
         Box::pin(async move { Ok(r) })
     }
@@ -116,9 +119,9 @@ fn body(c: &Case, ch: &Chooser) -> Outcome {
         bytes.truncate(t);
     }
     // exhaustive-composition cases take no Pending deviations (they would multiply 2^(n-1) compositions by every placement)
-    let chunking = if c.drip { Chunking::Fixed(vec![1]) } else { Chunking::Choose { free: c.free, pending: !c.free, empty: false } };
+    let chunking = if c.segments > 1 { Chunking::Fixed(if c.drip { vec![7] } else { vec![] }) } else if c.drip { Chunking::Fixed(vec![1]) } else { Chunking::Choose { free: c.free, pending: !c.free, empty: false } };
     let stats_slot = std::sync::Arc::new(std::sync::Mutex::new(None));
-    let inner = Canned { body: bytes.clone(), chunking, ch: ch.clone(), stats: stats_slot.clone() };
+    let inner = Canned { body: bytes.clone(), chunking, segments: c.segments, ch: ch.clone(), stats: stats_slot.clone() };
     let mut svc = GrpcWebClientService::new(inner);
     let req = http::Request::builder().method("POST").uri("/fx.Echo/ServerStream").version(http::Version::HTTP_2).body(tonic::body::Body::empty()).unwrap();
     let resp = match spin_block_on(svc.call(req), 1000) {
@@ -235,10 +238,14 @@ fn cases(tier: Tier) -> Vec<Case> {
     for msgs in &msg_sets {
         for (ti, tr) in trailer_menu().into_iter().enumerate() {
             for space in [false, true] {
-                let base = Case { msgs: msgs.clone(), trailers: tr.clone(), space, truncate: None, bad_flag: None, free: false, drip: false, raw: None };
+                let base = Case { msgs: msgs.clone(), trailers: tr.clone(), space, truncate: None, bad_flag: None, free: false, drip: false, raw: None, segments: 1 };
                 let len = encode(&base).0.len();
                 out.push(Case { free: len <= free_limit, ..base.clone() });
                 out.push(Case { drip: true, ..base.clone() });
+                // transports whose DATA buffers are not contiguous: the whole body as one frame of 2 / 3 segments, 7-byte frames of 2
+                out.push(Case { segments: 2, ..base.clone() });
+                out.push(Case { segments: 3, ..base.clone() });
+                out.push(Case { segments: 2, drip: true, ..base.clone() });
                 if space && ti > 1 && tier == Tier::Quick {
                     continue;
                 }
@@ -275,7 +282,7 @@ fn cases(tier: Tier) -> Vec<Case> {
                     raw.extend_from_slice(&declared.to_be_bytes());
                     raw.extend(std::iter::repeat(0x41).take(tail));
                     for drip in [false, true] {
-                        out.push(Case { msgs: vec![], trailers: trailer_menu()[0].clone(), space: false, truncate: None, bad_flag: None, free: false, drip, raw: Some(raw.clone()) });
+                        out.push(Case { msgs: vec![], trailers: trailer_menu()[0].clone(), space: false, truncate: None, bad_flag: None, free: false, drip, raw: Some(raw.clone()), segments: 1 });
                     }
                 }
             }
@@ -298,9 +305,9 @@ fn call_body(c: &CallCase, ch: &Chooser) -> Outcome {
     if !c.message.is_empty() {
         tr.push(("grpc-message".into(), c.message.as_bytes().to_vec()));
     }
-    let case = Case { msgs: c.msgs.iter().map(|m| (0u8, m.clone())).collect(), trailers: tr, space: false, truncate: None, bad_flag: None, free: false, drip: false, raw: None };
+    let case = Case { msgs: c.msgs.iter().map(|m| (0u8, m.clone())).collect(), trailers: tr, space: false, truncate: None, bad_flag: None, free: false, drip: false, raw: None, segments: 1 };
     let (bytes, _) = encode(&case);
-    let inner = Canned { body: bytes, chunking: Chunking::Choose { free: false, pending: true, empty: false }, ch: ch.clone(), stats: Default::default() };
+    let inner = Canned { body: bytes, chunking: Chunking::Choose { free: false, pending: true, empty: false }, segments: 1, ch: ch.clone(), stats: Default::default() };
     let mut client = EchoClient::new(GrpcWebClientService::new(inner));
     let view = match spin_block_on(super::l1::client_call(&mut client, super::l1::Shape::ServerStream, vec![vec![1]], &vec![], false, ch, |_| {}), 100_000) {
         Ok(v) => v,
@@ -333,7 +340,7 @@ pub fn property(tier: Tier) -> Property {
         Config { max_bound: tier.q(2, 3), hang_secs: 20, ..Default::default() },
         "cases: grpc-web response bodies built by the independent encoder: 0..2 message frames (flags 0/1, payloads 0..3 bytes) + one 0x80 trailers frame over a trailer-map menu (values with ':' and spaces, repeated names, empty values, opaque non-UTF-8 bytes; 'k:v' and 'k: v' spellings), plus truncation at every byte, an invalid flag byte at every frame start, and bodies ending inside a frame whose prefix declares 2^31-1 .. 2^32-1 bytes; environment: every chunking (all compositions for bodies <= 21/24 bytes, otherwise <= bound cuts/Pending deviations) plus byte-by-byte drip through GrpcWebClientService over a scripted inner service; oracle: DATA concatenates to exactly the message-frame bytes, then exactly one trailers frame equal as a multimap to what was sent, then None; truncated inside a frame / bad flag => an error and never a clean end; no busy loop. Non-trivial = body delivered in more than one chunk, truncated or corrupted.",
         cases(tier),
-        |c: &Case| format!("msgs={:?} trailers={:?} space={} truncate={:?} bad_flag={:?} free={} drip={} raw={:?}", c.msgs, show(&c.trailers), c.space, c.truncate, c.bad_flag, c.free, c.drip, c.raw.as_ref().map(|r| hex(r))),
+        |c: &Case| format!("msgs={:?} trailers={:?} space={} truncate={:?} bad_flag={:?} free={} drip={} raw={:?} segments={}", c.msgs, show(&c.trailers), c.space, c.truncate, c.bad_flag, c.free, c.drip, c.raw.as_ref().map(|r| hex(r)), c.segments),
         body,
     )
     .mins(1000, 10, 100);
